@@ -40,6 +40,24 @@ fn main() {
         std::process::exit(2);
     }
     match args[1].as_str() {
+        "genstats" => {
+            // generator health: rejection reasons of the direct set-up generator
+            use proptest::strategy::{Strategy, ValueTree};
+            let mut runner = proptest::test_runner::TestRunner::deterministic();
+            let strat = proptest::collection::vec(proptest::prelude::any::<u16>(), 96);
+            let mut ok = 0;
+            let mut reasons: std::collections::BTreeMap<String, u32> = Default::default();
+            for _ in 0..20000 {
+                let tape = strat.new_tree(&mut runner).unwrap().current();
+                let mut t = gen::Tape::new(&tape);
+                match gen::setup_position_why(&mut t) {
+                    Ok(_) => ok += 1,
+                    Err(e) => *reasons.entry(e).or_insert(0) += 1,
+                }
+            }
+            println!("ok {} rejected {:?}", ok, reasons);
+            std::process::exit(0);
+        }
         "selftest" => {
             println!("reference model self-test ok; curated positions: {}", gen::curated().len());
             std::process::exit(0);
